@@ -186,4 +186,127 @@ theorem MockDisplay_set_pixels_src_eq_model (pts : List Pt) (c : Option Color) (
       | none => rw [hm] at hd; simp only [toRes, optRes, Res.panic.injEq] at hd; subst hd; rfl
       | some d' => rw [hm] at hd; cases hd
 
+theorem display_points : Rectangle_points (OriginDimensions_bounding_box displayArea.size) = displayArea.points := by
+  simp only [Rectangle_points, OriginDimensions_bounding_box]; rfl
+
+theorem toOpt_set_pixel_unchecked (m : MD) (p : Pt) (c : Option Color) :
+    toOpt (MockDisplay_set_pixel_unchecked m p c) = m.setPixelUnchecked p c := by
+  rw [MockDisplay_set_pixel_unchecked_src_eq_model]; cases m.setPixelUnchecked p c <;> rfl
+
+/-- `swap_xy` (the unchecked accesses can panic in the model too; `toOpt` keeps that). -/
+theorem MockDisplay_swap_xy_src_eq_model (a : MD) : toOpt (MockDisplay_swap_xy a) = a.swapXy := by
+  unfold MockDisplay_swap_xy MD.swapXy
+  simp only [bind_def, pure_def, MockDisplay_new_src_eq_model, OriginDimensions_size_src_eq_model, bind_ok, display_points]
+  generalize displayArea.points = l
+  rw [forIn_yield' _ (fun (point : Pt) (s : MD) => (MockDisplay_get_pixel a (RectSrc.Point_new (Point_y point) (Point_x point))).bind
+      (fun c => at_state () (MockDisplay_set_pixel_unchecked s point c))) (by intro p s; rw [bind_assoc]), bind_ok_right]
+  refine loopM_foldl _ _ (fun _ => rfl) ?_ l MD.new
+  intro p m
+  simp only [EG.C16.Src.Point_new_src_eq_model, Point_x, Point_y]
+  rw [← MockDisplay_get_pixel_src_eq_model]
+  cases MockDisplay_get_pixel a ⟨p.y, p.x⟩ with
+  | ok v => simp only [bind_ok, toOpt_at_state, toOpt_set_pixel_unchecked, toOpt_ok]
+  | panic ms s => simp only [bind_panic, toOpt_panic]
+
+/-- `map`. -/
+theorem MockDisplay_map_src_eq_model (a : MD) (f : Color → Color) : toOpt (MockDisplay_map a f) = a.map f := by
+  unfold MockDisplay_map MD.map
+  simp only [bind_def, pure_def, MockDisplay_new_src_eq_model, OriginDimensions_size_src_eq_model, bind_ok, display_points]
+  generalize displayArea.points = l
+  rw [forIn_yield' _ (fun (point : Pt) (s : MD) => (MockDisplay_get_pixel a point).bind
+      (fun c => at_state () (MockDisplay_set_pixel_unchecked s point (option_map c f)))) (by intro p s; rw [bind_assoc]), bind_ok_right]
+  refine loopM_foldl _ _ (fun _ => rfl) ?_ l MD.new
+  intro p m
+  rw [← MockDisplay_get_pixel_src_eq_model]
+  cases MockDisplay_get_pixel a p with
+  | ok v => simp only [bind_ok, toOpt_at_state, toOpt_set_pixel_unchecked, toOpt_ok, option_map]
+  | panic ms s => simp only [bind_panic, toOpt_panic]
+
+/-- the three `Rgb888` constants of `diff`, regenerated (ColorSrc) = the hand model's. -/
+theorem diff_colours_src :
+    ColorSrc.impl_rgb_color_GREEN (ColorSrcPrelude.type_named "Rgb888") = GREEN ∧
+    ColorSrc.impl_rgb_color_RED (ColorSrcPrelude.type_named "Rgb888") = RED ∧
+    ColorSrc.impl_rgb_color_BLUE (ColorSrcPrelude.type_named "Rgb888") = BLUE := by decide +kernel
+
+/-- `diff`. -/
+theorem MockDisplay_diff_src_eq_model (a b : MD) : toOpt (MockDisplay_diff a b) = a.diff b := by
+  unfold MockDisplay_diff MD.diff
+  simp only [bind_def, pure_def, MockDisplay_new_src_eq_model, OriginDimensions_size_src_eq_model, bind_ok, display_points]
+  generalize displayArea.points = l
+  rw [forIn_yield' _ (fun (point : Pt) (s : MD) => (MockDisplay_get_pixel a point).bind (fun sc =>
+      (MockDisplay_get_pixel b point).bind (fun oc => at_state () (MockDisplay_set_pixel_unchecked s point (diffColor sc oc)))))
+      (by
+        intro p s
+        rw [bind_assoc]; congr 1; funext sc
+        rw [bind_assoc]; congr 1; funext oc
+        congr 2
+        cases sc <;> cases oc <;> simp only [diffColor, rs_ne, diff_colours_src.1, diff_colours_src.2.1, diff_colours_src.2.2]),
+    bind_ok_right]
+  refine loopM_foldl _ _ (fun _ => rfl) ?_ l MD.new
+  intro p m
+  unfold diffStep
+  simp only []
+  rw [← MockDisplay_get_pixel_src_eq_model, ← MockDisplay_get_pixel_src_eq_model]
+  cases MockDisplay_get_pixel a p with
+  | panic ms s => simp only [bind_panic, toOpt_panic]
+  | ok v =>
+    cases MockDisplay_get_pixel b p with
+    | panic ms s => simp only [bind_ok, bind_panic, toOpt_panic, toOpt_ok]
+    | ok w => simp only [bind_ok, toOpt_at_state, toOpt_set_pixel_unchecked, toOpt_ok]
+
+/-- `PartialEq::eq`. -/
+theorem PartialEq_eq_src_eq_model (a b : MD) : PartialEq_eq a b = .ok (a.eq b) := rfl
+
+/-! ### `affected_area` -/
+
+theorem aaStep_src : (fun (x : Option Pt × Option Pt) (point : Pt) =>
+      (option_or (option_map x.fst (fun tl => Pt.componentMin tl point)) (some point),
+       option_or (option_map x.snd (fun br => Pt.componentMax br point)) (some point))) = aaStep := by
+  funext x point
+  obtain ⟨a, b⟩ := x
+  cases a <;> cases b <;> rfl
+
+/-- `affected_area`: the same zip / filter_map / fold, then `with_corners` or `zero`. -/
+theorem MockDisplay_affected_area_src_eq_model (d : MD) : MockDisplay_affected_area d = .ok d.affectedArea := by
+  unfold MockDisplay_affected_area MD.affectedArea MD.touched
+  simp only [bind_def, pure_def, OriginDimensions_size_src_eq_model, bind_ok, display_points]
+  mock_simp [EG.C16.Src.Point_component_min_src_eq_model, EG.C16.Src.Point_component_max_src_eq_model, EG.C16.Src.with_corners_src_eq_model, EG.C16.Src.zero_src_eq_model]
+  have h := aaStep_src
+  simp only [option_map, option_or] at h
+  rw [h]
+  generalize List.foldl aaStep (none, none) _ = r
+  obtain ⟨a, b⟩ := r
+  cases a <;> cases b <;> rfl
+
+theorem affectedArea_fits (d : MD) : EG.C16.Src.FitsI32 d.affectedArea.size := by
+  rcases affectedArea_spec d with ⟨_, h⟩ | ⟨tl, br, h, ht⟩
+  · rw [h]; decide
+  · rw [h]
+    obtain ⟨_, ⟨l, hl, hl'⟩, ⟨t, ht1, ht'⟩, ⟨r, hr, hr'⟩, ⟨b, hb, hb'⟩⟩ := ht
+    have h1 := ((mem_touched d l).mp hl).1
+    have h2 := ((mem_touched d t).mp ht1).1
+    have h3 := ((mem_touched d r).mp hr).1
+    have h4 := ((mem_touched d b).mp hb).1
+    unfold Inside at h1 h2 h3 h4
+    simp only [Rect.withCorners, EG.C16.Src.FitsI32]
+    omega
+
+/-- `affected_area_origin` (private; used by the fancy panic only). -/
+theorem MockDisplay_affected_area_origin_src_eq_model (d : MD) : MockDisplay_affected_area_origin d = .ok d.affectedAreaOrigin := by
+  unfold MockDisplay_affected_area_origin MD.affectedAreaOrigin
+  simp only [bind_def, pure_def, MockDisplay_affected_area_src_eq_model, bind_ok, EG.C16.Src.bottom_right_src_eq_model _ (affectedArea_fits d),
+    EG.C16.Src.with_corners_src_eq_model, EG.C16.Src.Point_zero_src_eq_model]
+  cases d.affectedArea.bottomRight <;> rfl
+
+/-- `from_points`: `new`, then `set_pixels(points, Some(color))`. -/
+theorem MockDisplay_from_points_src_eq_model (pts : List Pt) (c : Color) :
+    toOpt (MockDisplay_from_points pts c) =
+      match MD.new.setPixels (some c) pts with
+      | .ok d => some d
+      | .panic _ => none := by
+  unfold MockDisplay_from_points
+  simp only [bind_def, pure_def, MockDisplay_new_src_eq_model, bind_ok, bind_ok_right, toOpt_at_state]
+  rw [← MockDisplay_set_pixels_src_eq_model]
+  cases MockDisplay_set_pixels MD.new pts (some c) <;> rfl
+
 end EG.C20.Generated
